@@ -787,14 +787,29 @@ impl Driver for EditDriver {
         ]
     }
     fn run(&self, c: &mut Case) -> Outcome {
-        let mut ap = Applied { shifted_f: false, shifted_g: false, shifted_m: false, kinds: vec![], deletions: 0, conv_order: vec![], mixed_conv_import: false, trigger: vec![], nan_consts: 0, nonint_consts: 0 };
-        let o = self.run_inner(c, &mut ap);
+        let mut ap = Applied::new();
+        let o = self.run_inner(c, &mut ap, None);
         by_class(&ap, o)
     }
 }
 
+/// Alternative final step of a history (C04 / C05): receives the edited, not yet encoded
+/// module; its outcome replaces the model comparison.
+pub type Finisher<'x> = &'x mut dyn FnMut(&mut Case, &mut wirm::Module, &Applied) -> Outcome;
+
+impl Applied {
+    pub fn new() -> Applied {
+        Applied { shifted_f: false, shifted_g: false, shifted_m: false, kinds: vec![], deletions: 0, conv_order: vec![], mixed_conv_import: false, trigger: vec![], nan_consts: 0, nonint_consts: 0 }
+    }
+}
+
 impl EditDriver {
-    fn run_inner(&self, c: &mut Case, ap: &mut Applied) -> Outcome {
+    /// Generate base + history from the tape, apply it, and hand the module to `fin`.
+    pub fn scenario(&self, c: &mut Case, ap: &mut Applied, fin: Finisher) -> Outcome {
+        self.run_inner(c, ap, Some(fin))
+    }
+
+    fn run_inner(&self, c: &mut Case, ap: &mut Applied, fin: Option<Finisher>) -> Outcome {
         let a = self.alphabet;
         let profile = self.profile(&mut c.t);
         let mut cfg = steer_cfg(c, Kind::Edit, profile);
@@ -840,6 +855,10 @@ impl EditDriver {
         c.note(|| format!("BASE\n{}\nHISTORY\n{}", dm::print_wat(&bytes), w.log.join("\n")));
         for k in &ap.kinds {
             c.class(&format!("op:{}", k));
+        }
+
+        if let Some(fin) = fin {
+            return fin(c, &mut module, ap);
         }
 
         // trigger classes of the stored (never re-indexed) name maps
